@@ -727,3 +727,15 @@ package geometry
 //@   props C12 C04
 //@   requires series != nil
 //@   ensures result == series.index
+
+//@ func Rect.Index
+//@   props C04 C05
+//@   ensures result == nil
+//@ func baseSeries.clearIndex
+//@   props C04 C05
+//@   requires series != nil
+//@   modifies baseSeries.index
+//@   ensures series.index == nil && IndexInv(series)
+//@   ensures forall r *baseSeries :: r != series ==> r.index == old(r.index)
+//@ func IndexKind.String
+//@   props C05
